@@ -296,6 +296,10 @@ def r3(ctx, lib):
             if comp.has_call(r'path::Path::strip_root$'):
                 ctx.check(not lossy, rule, b.path + '|suffix-intact', c.where(), 'the path without its root is used unchanged', 'the suffix passes through %s' % lossy)
     ds = ctx.need_body(rule, 'dedupe::PartitionedFileGroup::dedupe_script')
+    if ds is not None:
+        # the loop over the dropped files may be written as `into_iter().filter_map(|f| ..).collect()`: the closure body is looked at where the loop would stand
+        from ..desugar import desugared
+        ds = desugared(lib, ds, adaptors=True)
     if ds is None:
         return
     moves = [(bi, s) for bi, blk in enumerate(ds.blocks) if not blk['cleanup'] for s in blk['stmts']
